@@ -749,6 +749,10 @@ pub struct Align {
     pub delta: i32,
     /// which record (monotone map over the candidates)
     pub pick: u16,
+    /// the offset is measured back from the end of the text: the record starts exactly `target - delta` bytes
+    /// before the end (a reader's last, partly filled block then begins with its header line)
+    #[serde(default)]
+    pub from_end: bool,
 }
 
 pub const ALIGN_TARGETS: &[usize] = &[4096, 8192, 16384, 32768, 65536, 131072, 1 << 20, 2 << 20];
@@ -756,7 +760,7 @@ pub const ALIGN_TARGETS: &[usize] = &[4096, 8192, 16384, 32768, 65536, 131072, 1
 pub fn align_strategy(max_target: usize) -> BoxedStrategy<Align> {
     let t: Vec<usize> = ALIGN_TARGETS.iter().copied().filter(|&t| t <= max_target).collect();
     (select(t), prop_oneof![4 => Just(0i32), 2 => -1i32..=1, 2 => -12i32..=-1, 1 => -40i32..=40], any::<u16>())
-        .prop_map(|(target, delta, pick)| Align { target, delta, pick })
+        .prop_flat_map(|(target, delta, pick)| prop::bool::weighted(0.25).prop_map(move |from_end| Align { target, delta, pick, from_end }))
         .boxed()
 }
 
@@ -774,6 +778,29 @@ pub fn align_records_nl(recs: &mut [Rec], a: &Align, crlf: bool) -> Option<usize
     let mut off = vec![0usize; recs.len() + 1];
     for (i, r) in recs.iter().enumerate() {
         off[i + 1] = off[i] + size(r);
+    }
+    if a.from_end {
+        // candidates: records i >= 1 whose distance to the end is at most the wanted one; the last record grows
+        let total = off[recs.len()];
+        let cands: Vec<usize> = (1..recs.len()).filter(|&i| total - off[i] <= want).collect();
+        if cands.is_empty() {
+            return None;
+        }
+        let i = cands[crate::util::idx16(a.pick, cands.len())];
+        let mut pad = want - (total - off[i]);
+        let last = recs.last_mut().unwrap();
+        if pad > 0 && last.seq.0.is_empty() {
+            if pad <= nl {
+                return None;
+            }
+            pad -= nl;
+        }
+        let clean: Vec<u8> = last.seq.0.iter().copied().filter(|&b| model::is_base(b)).collect();
+        let unit = if clean.is_empty() { b"ACGTTGCA".to_vec() } else { clean };
+        for j in 0..pad {
+            last.seq.0.push(unit[j % unit.len()]);
+        }
+        return Some(i);
     }
     // candidates: records i >= 1 that start at or before the wanted offset
     let cands: Vec<usize> = (1..recs.len()).filter(|&i| off[i] <= want).collect();
